@@ -28,6 +28,7 @@
  */
 
 #include <utility>
+#include <algorithm>
 #include <cstdio>
 #include <tins/dns.h>
 #include <tins/ip_address.h>
@@ -697,10 +698,19 @@ PDU::serialization_type DNS::soa_record::serialize() const {
 
 void DNS::soa_record::init(const uint8_t* buffer, uint32_t total_sz) {
     InputMemoryStream stream(buffer, total_sz);
-    string domain = (const char*)stream.pointer();
+    // Both names have to be null terminated inside the buffer
+    const uint8_t* name_end = std::find(stream.pointer(), stream.pointer() + stream.size(), 0);
+    if (name_end == stream.pointer() + stream.size()) {
+        throw malformed_packet();
+    }
+    string domain(stream.pointer(), name_end);
     mname_ = DNS::decode_domain_name(domain);
     stream.skip(domain.size() + 1);
-    domain = (const char*)stream.pointer();
+    name_end = std::find(stream.pointer(), stream.pointer() + stream.size(), 0);
+    if (name_end == stream.pointer() + stream.size()) {
+        throw malformed_packet();
+    }
+    domain.assign(stream.pointer(), name_end);
     stream.skip(domain.size() + 1);
     rname_ = DNS::decode_domain_name(domain);
     serial_ = stream.read_be<uint32_t>();
